@@ -107,3 +107,18 @@ Definition trigger_at_location (t : trigger) (event file : str) (line : Z) (func
   | Some k => at_loc (t_loc t) {| e_kind := k; e_file := file; e_line := line; e_func := function |}
   | None => false
   end.
+
+(* ---------- work-list loops (bfs.breadth_first_search) ----------
+   The translator emits ONE ITERATION of the loop: from the list and the state to "the loop is over, with this state"
+   or "go on with this list and this state"; wl_run is the loop over it (fuel: the list can grow). *)
+Inductive wl_result (N S : Type) := WEnd (s : S) | WGo (q : list N) (s : S).
+Arguments WEnd {N S} s.
+Arguments WGo {N S} q s.
+Fixpoint wl_run {N S} (iter : list N -> S -> wl_result N S) (fuel : nat) (q : list N) (s : S) : S * bool :=
+  match fuel with
+  | O => (s, match q with [] => true | _ => false end)       (* out of fuel: finished only if nothing was left to do *)
+  | S f => match iter q s with WEnd s' => (s', true) | WGo q' s' => wl_run iter f q' s' end
+  end.
+(* l.pop(0) / l.pop(): the element taken and the list left; None = IndexError (empty list) *)
+Definition py_pop_first {N} (l : list N) : option (N * list N) := match l with [] => None | x :: r => Some (x, r) end.
+Definition py_pop_last {N} (l : list N) : option (N * list N) := match rev l with [] => None | x :: r => Some (x, rev r) end.
